@@ -8,29 +8,29 @@ import Rscp.Gen.Leaves
 namespace Rscp.Tie.Client
 
 /-- source of `rscp_NewClient` is unchanged -/
-theorem shape_rscp_NewClient : Rscp.Gen.Shape.rscp_NewClient = "d83d81ea5ff246ebda7275443d2c3e3a" := rfl
+theorem shape_rscp_NewClient : Rscp.Gen.Shape.rscp_NewClient = "a7f797eb98c9132e8f47d5f5d5d8a0b0" := rfl
 /-- source of `rscp_Client_resetCipher` is unchanged -/
-theorem shape_rscp_Client_resetCipher : Rscp.Gen.Shape.rscp_Client_resetCipher = "beaeac7b6c83a8e30a0fbf41613ff033" := rfl
+theorem shape_rscp_Client_resetCipher : Rscp.Gen.Shape.rscp_Client_resetCipher = "4753f9ac70821545abf2453b756a2429" := rfl
 /-- source of `rscp_Client_send` is unchanged -/
-theorem shape_rscp_Client_send : Rscp.Gen.Shape.rscp_Client_send = "058804ab80431d29cfd22b4fa588ec11" := rfl
+theorem shape_rscp_Client_send : Rscp.Gen.Shape.rscp_Client_send = "1166e7b512e4aeb758a45d61d2d6dc87" := rfl
 /-- source of `rscp_Client_receive` is unchanged -/
-theorem shape_rscp_Client_receive : Rscp.Gen.Shape.rscp_Client_receive = "08f5a8d37db46bd97cb5c88a65db2e10" := rfl
+theorem shape_rscp_Client_receive : Rscp.Gen.Shape.rscp_Client_receive = "8194701b5c7ea5c7f7c5d83b7df5ad3d" := rfl
 /-- source of `rscp_Client_connect` is unchanged -/
-theorem shape_rscp_Client_connect : Rscp.Gen.Shape.rscp_Client_connect = "4036e2cae9ca2f3cefe54fc438620596" := rfl
+theorem shape_rscp_Client_connect : Rscp.Gen.Shape.rscp_Client_connect = "c1781895d34cff8a0d97942041a1a20c" := rfl
 /-- source of `rscp_Client_authenticate` is unchanged -/
-theorem shape_rscp_Client_authenticate : Rscp.Gen.Shape.rscp_Client_authenticate = "d806479c92d1a010fb848cd1e3a7f447" := rfl
+theorem shape_rscp_Client_authenticate : Rscp.Gen.Shape.rscp_Client_authenticate = "bee8cebd6d22ae0088f498c6cf2dbf0c" := rfl
 /-- source of `rscp_Client_Disconnect` is unchanged -/
-theorem shape_rscp_Client_Disconnect : Rscp.Gen.Shape.rscp_Client_Disconnect = "c62ca3e8c6ab471653297b8c36dff39e" := rfl
+theorem shape_rscp_Client_Disconnect : Rscp.Gen.Shape.rscp_Client_Disconnect = "1332ed556c12fab2721b6f5e30892970" := rfl
 /-- source of `rscp_Client_Send` is unchanged -/
-theorem shape_rscp_Client_Send : Rscp.Gen.Shape.rscp_Client_Send = "2b3e90fc533d604ae261032680598b9e" := rfl
+theorem shape_rscp_Client_Send : Rscp.Gen.Shape.rscp_Client_Send = "e24530821a6f1f84ee3965b6e2b37e64" := rfl
 /-- source of `rscp_Client_SendMultiple` is unchanged -/
-theorem shape_rscp_Client_SendMultiple : Rscp.Gen.Shape.rscp_Client_SendMultiple = "d527ae3d91c985606a688f7785543d18" := rfl
+theorem shape_rscp_Client_SendMultiple : Rscp.Gen.Shape.rscp_Client_SendMultiple = "668e3f152b86d0d7388b91feb8072cb2" := rfl
 /-- source of `rscp_CreateRequest` is unchanged -/
-theorem shape_rscp_CreateRequest : Rscp.Gen.Shape.rscp_CreateRequest = "6bd367e36d531b4dec42d11f018c36bc" := rfl
+theorem shape_rscp_CreateRequest : Rscp.Gen.Shape.rscp_CreateRequest = "d77448aee0166481fee9e932a858d09b" := rfl
 /-- source of `rscp_readRequestSlice` is unchanged -/
-theorem shape_rscp_readRequestSlice : Rscp.Gen.Shape.rscp_readRequestSlice = "7a1d051474a563bb58410d901a5d4ee1" := rfl
+theorem shape_rscp_readRequestSlice : Rscp.Gen.Shape.rscp_readRequestSlice = "885218cdd62e065e7485abbfb5c92c05" := rfl
 /-- source of `rscp_readRequestSliceReader` is unchanged -/
-theorem shape_rscp_readRequestSliceReader : Rscp.Gen.Shape.rscp_readRequestSliceReader = "0123d312a66c68376ae2bc8d168720a4" := rfl
+theorem shape_rscp_readRequestSliceReader : Rscp.Gen.Shape.rscp_readRequestSliceReader = "27fb82cc7eb89ab39ea12cf4b8c026c1" := rfl
 /-- leaf `authenticate_hideLog`: source text and argument list are unchanged -/
 theorem leaf_authenticate_hideLog_src : Rscp.Gen.Leaf.authenticate_hideLog_src = "orgLogLevel < RequiredAuthLogLevel" := rfl
 theorem leaf_authenticate_hideLog_args : Rscp.Gen.Leaf.authenticate_hideLog_args = ["orgLogLevel"] := rfl
